@@ -50,3 +50,27 @@ contract(S + 'resolve_from_ldd_output',
 
 def ghost_defined(name):
     return True
+
+
+# ---- libtool archives: the dlname field names the shared object -----------------------------------------------------------
+U = 'giscanner.utils.'
+contract(U + '_extract_dlname_field', params={'la_file': 'str'}, returns='str?', pure_keys=['la_file'], trusted=True,
+         raises={'OSError': 'maybe'}, note="dlname='...' field of the .la file (file contents and the regular expression not modelled)")
+contract(U + '_extract_libdir_field', params={'la_file': 'str'}, returns='str?', pure_keys=['la_file'], trusted=True,
+         raises={'OSError': 'maybe'})
+contract('platform.system', params={}, returns='str', pure_keys=[], trusted=True)
+import giscanner.utils as _gu   # noqa
+import os as _os, platform as _platform   # noqa
+basename = _os.path.basename
+system = _platform.system
+dlname_of = _gu._extract_dlname_field
+libdir_of = _gu._extract_libdir_field
+contract(U + 'extract_libtool_shlib', params={'la_file': 'str'}, returns='str?', props=('C19',), raises={'OSError': 'True'},
+         ensures={
+             'C19.libtool.no_dlname_no_library': 'implies(dlname_of(la_file) is None, result is None)',
+             'C19.libtool.basename_of_the_dlname': "implies(dlname_of(la_file) is not None and system() != 'Darwin', "
+                                                  "result == basename(dlname_of(la_file)))",
+             'C19.libtool.darwin_uses_the_libdir': "implies(dlname_of(la_file) is not None and system() == 'Darwin', result == "
+                                                   "(libdir_of(la_file) + '/' + basename(dlname_of(la_file)) if libdir_of(la_file) is not None "
+                                                   "else basename(dlname_of(la_file))))",
+         })
